@@ -8,6 +8,7 @@ package main
 import (
 	"bytes"
 	"context"
+	"encoding/json"
 	"fmt"
 	"math/rand"
 	"os"
@@ -17,6 +18,7 @@ import (
 	"strings"
 	"sync"
 
+	"github.com/opencontainers/go-digest"
 	ocispec "github.com/opencontainers/image-spec/specs-go/v1"
 	oras "oras.land/oras-go/v2"
 	"oras.land/oras-go/v2/content"
@@ -346,6 +348,71 @@ func runC03(seed int64, tier string, sc *Script) map[string]any {
 		}
 		os.RemoveAll(dir)
 		os.Remove(dir + ".tar")
+	}
+	// a remote source (Referrers API, or the tag schema) with an artifact-type filter whose
+	// pattern is a plain string: the pattern is a regular expression - it keeps every referrer
+	// whose type *contains* the string
+	for vi := 0; vi < 6; vi++ {
+		sc.Case("extcopy-remote-literal-filter")
+		sc.NonTrivial()
+		reg := newFakeRegistry(regProfile{ReferrersAPI: vi%2 == 0, DigestHeaders: true, ServerFilter: vi%3 == 0})
+		repo, _ := remote.NewRepository(reg.Host() + "/lit/repo")
+		repo.PlainHTTP = true
+		push := func(mt string, b []byte) ocispec.Descriptor {
+			d := ocispec.Descriptor{MediaType: mt, Digest: digest.FromBytes(b), Size: int64(len(b))}
+			if err := repo.Push(ctx, d, bytes.NewReader(b)); err != nil {
+				panic(err)
+			}
+			return d
+		}
+		cfgD := push(ocispec.MediaTypeEmptyJSON, []byte("{}"))
+		mk := func(at string, subject *ocispec.Descriptor, id string) ocispec.Descriptor {
+			payload := push("application/vnd.verif.payload", []byte("payload-"+id+fmt.Sprint(vi)))
+			m := ocispec.Manifest{MediaType: ocispec.MediaTypeImageManifest, ArtifactType: at, Config: cfgD, Layers: []ocispec.Descriptor{payload}, Subject: subject,
+				Annotations: map[string]string{"id": id}}
+			m.SchemaVersion = 2
+			b, _ := json.Marshal(m)
+			return push(ocispec.MediaTypeImageManifest, b)
+		}
+		subj := mk("", nil, "subject")
+		sbom := mk("application/vnd.demo.sbom+json", &subj, "sbom")
+		sig := mk("application/vnd.demo.sig", &subj, "sig")
+		pattern := []string{"sbom", "application/vnd.demo.s", "demo", "sig", "application/vnd.demo.sbom+json", "nothing-has-this"}[vi]
+		var want []string
+		for _, c := range []struct {
+			at, id string
+		}{{"application/vnd.demo.sbom+json", "sbom"}, {"application/vnd.demo.sig", "sig"}} {
+			if regexp.MustCompile(regexp.QuoteMeta(pattern)).MatchString(c.at) {
+				want = append(want, c.id)
+			}
+		}
+		dst := memory.New()
+		var o oras.ExtendedCopyGraphOptions
+		o.FilterArtifactType(regexp.MustCompile(regexp.QuoteMeta(pattern)))
+		err := oras.ExtendedCopyGraph(ctx, repo, dst, subj, o)
+		var got []string
+		for _, c := range []struct {
+			d  ocispec.Descriptor
+			id string
+		}{{sbom, "sbom"}, {sig, "sig"}} {
+			if ok, _ := dst.Exists(ctx, c.d); ok {
+				got = append(got, c.id)
+			}
+		}
+		ans := strings.Join(got, ",")
+		if ans == "" {
+			ans = "-"
+		}
+		if err != nil {
+			ans = "err:" + strings.ReplaceAll(err.Error(), " ", "_")
+		}
+		w := strings.Join(want, ",")
+		if w == "" {
+			w = "-"
+		}
+		sc.Op(ans, "fr literalfilter api=%v pattern=%s want=%s", vi%2 == 0, pattern, w)
+		evals++
+		reg.Close()
 	}
 	sc.Extra["evaluations"] = evals
 	return nil
